@@ -2,8 +2,8 @@
 mod verif_value {
     use super::*;
 
-    /// Minimal ReadValue whose position is fully symbolic; only `position` matters to LimitReader's
-    /// own arithmetic.
+    /// Minimal ReadValue whose position is fully symbolic; only `position` matters to
+    /// LimitReader's own arithmetic.
     pub struct SymReader {
         pub pos: u64,
     }
@@ -18,8 +18,9 @@ mod verif_value {
         fn position(&self) -> u64 { self.pos }
     }
 
+    /// Twin of the Verus obligation check_has_bytes.exact: gives a concrete counterexample.
     #[kani::proof_for_contract(LimitReader::check_has_bytes)]
-    fn check_has_bytes_contract() {
+    pub fn check_has_bytes_contract() {
         let mut inner = SymReader { pos: kani::any() };
         let end: u64 = kani::any();
         let len: usize = kani::any();
@@ -27,8 +28,85 @@ mod verif_value {
         let _ = rd.check_has_bytes(len);
     }
 
+    /// Twin of new.end_exact / sub_limit.end_exact (loop-free, full domain).
     #[kani::proof]
-    fn canary() {
+    pub fn limit_reader_new_sub_limit() {
+        let pos: u64 = kani::any();
+        let len: u64 = kani::any();
+        let mut inner = SymReader { pos };
+        let want = core::cmp::min(pos as u128 + len as u128, u64::MAX as u128);
+        let mut rd = LimitReader::new(&mut inner, len);
+        assert!(rd.end as u128 == want);
+        let len2: u64 = kani::any();
+        let want2 = core::cmp::min(pos as u128 + len2 as u128, u64::MAX as u128);
+        let sub = rd.sub_limit(len2);
+        assert!(sub.end as u128 == want2);
+    }
+
+    pub const B: usize = 8;
+
+    /// ValueReader::skip over an in-memory buffer: never moves backwards, and a successful
+    /// skip of `len` bytes ends at pos+len (over the integers).
+    #[kani::proof]
+    pub fn value_reader_skip_forward() {
+        let data: [u8; B] = kani::any();
+        let n: usize = kani::any();
+        kani::assume(n <= B);
+        let mut rd = ValueReader::from_buf(&data[..n]);
+        let start: usize = kani::any();
+        kani::assume(start <= n);
+        if start > 0 {
+            let _ = rd.skip(start);
+        }
+        let p0 = rd.position();
+        kani::assume(p0 == start as u64);
+        let len: usize = kani::any();
+        let r = rd.skip(len);
+        let p1 = rd.position();
+        if r.is_ok() {
+            assert!(p1 as u128 == p0 as u128 + len as u128, "Ok(skip) advances by exactly len");
+            kani::cover!(len > 0);
+        }
+    }
+
+    /// "field lengths larger than the remaining input are errors": a successful skip on a
+    /// buffer-backed reader stays inside the buffer.
+    #[kani::proof]
+    pub fn value_reader_skip_within_input() {
+        let data: [u8; B] = kani::any();
+        let n: usize = kani::any();
+        kani::assume(n <= B);
+        let mut rd = ValueReader::from_buf(&data[..n]);
+        let len: usize = kani::any();
+        let r = rd.skip(len);
+        if r.is_ok() {
+            assert!(rd.position() <= n as u64, "Ok(skip) must not pass the end of the input");
+            kani::cover!(len == n);
+        }
+    }
+
+    /// read_bytes with an untrusted length: no panic (in particular no capacity-overflow
+    /// panic from allocating `len` bytes up front), and Ok(v) => v is exactly the next `len`
+    /// bytes of the input, so len <= remaining input.
+    #[kani::proof]
+    #[kani::unwind(12)]
+    pub fn value_reader_read_bytes_bounded_by_input() {
+        let data: [u8; 4] = kani::any();
+        let n: usize = kani::any();
+        kani::assume(n <= 4);
+        let mut rd = ValueReader::from_buf(&data[..n]);
+        let len: usize = kani::any();
+        let r = rd.read_bytes(len);
+        if let Ok(v) = r {
+            assert!(len <= n, "Ok(read_bytes(len)) needs len bytes of input");
+            assert!(v.len() == len);
+            assert!(rd.position() == len as u64);
+            kani::cover!(len == 3);
+        }
+    }
+
+    #[kani::proof]
+    pub fn canary() {
         let x: u8 = kani::any();
         assert!(x != 7);
     }
